@@ -114,6 +114,13 @@ pub fn explore_with(cfg: &Rc<Cfg>, refr: &Rc<Reference>, opts: &Opts) -> Result<
     let mut out = Explored::default();
     let mut seen: HashSet<Vec<u8>> = HashSet::new();
     let mut root = Sim::new(cfg.clone(), refr.clone());
+    if opts.misuse {
+        // the state before event_startup is reachable too: every event but the start-up is illegal there
+        misuse_checks(&mut root, &mut out.ex);
+        for v in root.viol.drain(..) {
+            out.viol.push(Found { viol: v, events: vec![] });
+        }
+    }
     root.startup();
     out.transitions += 1;
     let mut stack: Vec<Sim> = vec![root];
